@@ -16,7 +16,7 @@ ALLOC_A, ALLOC_B = 65536, 1024        # bytes the decoder may request in total: 
 
 
 def make_plan(tape, prop):
-    schema = gs.gen_schema(tape, cpp=True)
+    schema = gs.gen_schema(tape, cpp=True, shape_chance=(1, 2))
     plan = {"sim": "linkcpp", "prop": prop, "schema": schema}
     plan["values"] = [[tape.draw(1 << 16) for _ in range(48)] for _ in range(2 + tape.draw(2))]
     plan["fault_seed"] = tape.draw(1 << 30)
